@@ -1049,6 +1049,36 @@ fn own_words(db: &anything::Db, s: &shipped::Shipped, perms: Perms, only: &Optio
             }
         }
     }
+    // the words of a fact separated by other blanks than one space: several spaces, a tab, and the
+    // Unicode blanks that reach a command line by copy and paste (no-break space, thin space,
+    // ideographic space). Asked for every fourth fact, and for every fact whose words are not all
+    // lower-case letters; only forms the real parser reads as one phrase of these words count.
+    for (index, toks) in all_tokens.iter().enumerate() {
+        if let Some(only) = only {
+            if !only.contains(&index) {
+                continue;
+            }
+        }
+        let plainish = toks.iter().all(|t| t.chars().all(|c| c.is_ascii_lowercase()));
+        if toks.len() < 2 || (plainish && index % 4 != 0) {
+            continue;
+        }
+        let words: Vec<&str> = toks.iter().map(|t| t.as_str()).collect();
+        if shipped::typed_forms(&words).is_empty() {
+            continue;
+        }
+        for sep in ["  ", "\t", "\u{a0}", "\u{2009}", "\u{3000}", " \u{a0} "] {
+            let phrase = words.join(sep);
+            if !shipped::is_phrase(&phrase, &phrase) {
+                continue;
+            }
+            queries += 1;
+            let (why, _) = own_words_ask(db, &phrase, &words, &shipped_set, false);
+            if let Some(why) = why {
+                fails.push(OwnWordsFail { index, phrase: phrase.clone(), why: format!("(words separated by {sep:?}) {why}") });
+            }
+        }
+    }
     if let Some(seed) = again {
         // the same handle, other orders: A B A, then everything once more in a shuffled order
         let mut ask_again = |index: usize, phrase: &str, before: &Option<String>, how: &str, queries: &mut usize, fails: &mut Vec<OwnWordsFail>| {
